@@ -52,6 +52,10 @@ def vertices_lists(nseg, count, degenerate=False):
 def knots_for(nseg, variant):
     if variant == 0:
         return [F(i) for i in range(nseg + 1)]
+    if variant == 2:
+        return [F(100000 * i) for i in range(nseg + 1)]   # slow parametrisation: |C'| ~ 1e-5
+    if variant == 3:
+        return [F(i, 1000) for i in range(nseg + 1)]      # fast parametrisation: |C'| ~ 1e3
     return [F(0), F(1, 2), F(2), F(3), F(7)][:nseg + 1]
 
 
@@ -65,6 +69,8 @@ def all_polylines(b):
         out.append((v, 1, False))
     for v in vertices_lists(4, b["four_segment"]):
         out.append((v, 0, False))
+    for i, v in enumerate(vertices_lists(1, 10 ** 6)[::6] + vertices_lists(2, b["two_segment"])[::12]):
+        out.append((v, 2 + i % 2, False))
     for v in vertices_lists(2, b["degenerate"] // 2, True) + vertices_lists(3, b["degenerate"] // 2, True):
         out.append((v, 0, True))
     return out
